@@ -480,6 +480,60 @@ fn check_full_regex(rule: &str, urls: &[U], l: &mut Local) {
     }
 }
 
+/// Two spellings of one body (different anchor modes) evaluated through ONE shared regex manager,
+/// as rules of one engine are: whatever the manager caches for one of them must not answer for
+/// the other. Oracle: the same rule with a manager of its own (validated against the reference
+/// by the main sweep).
+fn check_shared_manager(body: &str, urls: &[U], l: &mut Local) {
+    let rules: Vec<(String, NetworkFilter)> = MODES
+        .iter()
+        .map(|m| format!("{}{}{}", m.0, body, m.1))
+        .filter(|r| !quirky(r))
+        .filter_map(|r| match catch(|| NetworkFilter::parse(&r, true, Default::default())) {
+            Ok(Ok(f)) => Some((r, f)),
+            _ => None,
+        })
+        .collect();
+    // answers with a private manager per rule, every 4th URL
+    let sub: Vec<&U> = urls.iter().step_by(4).collect();
+    let own: Vec<Vec<bool>> = rules
+        .iter()
+        .map(|(_, f)| {
+            let mut rm = RegexManager::default();
+            sub.iter().map(|u| f.matches(&u.req, &mut rm)).collect()
+        })
+        .collect();
+    for a in 0..rules.len() {
+        for b in 0..rules.len() {
+            if a == b {
+                continue;
+            }
+            l.states += 1;
+            let mut rm = RegexManager::default();
+            for (k, u) in sub.iter().enumerate() {
+                l.evaluations += 2;
+                l.transitions += 2;
+                l.compared += 2;
+                let ra = rules[a].1.matches(&u.req, &mut rm);
+                let rb = rules[b].1.matches(&u.req, &mut rm);
+                if ra || rb {
+                    l.nontrivial += 1;
+                }
+                if ra != own[a][k] || rb != own[b][k] {
+                    let (which, got, exp) = if ra != own[a][k] { (a, ra, own[a][k]) } else { (b, rb, own[b][k]) };
+                    l.mismatch(Mismatch {
+                        sig: "c02.shared-manager.answer-depends-on-the-other-rule".into(),
+                        what: format!("rules {:?} and {:?} through one regex manager: {:?} on {:?} gives {}, with a manager of its own {}", rules[a].0, rules[b].0, rules[which].0, u.req.url, got, exp),
+                        case: json!({"kind":"shared","body":body}),
+                        size: body.len() as u64,
+                    });
+                    return;
+                }
+            }
+        }
+    }
+}
+
 fn find_url<'a>(urls: &'a [U], url: &str) -> Option<&'a U> {
     urls.iter().find(|u| u.req.url == url)
 }
@@ -509,6 +563,7 @@ fn replay(case: &Value, l: &mut Local) {
         None => &urls,
     };
     match case["kind"].as_str().unwrap_or("pattern") {
+        "shared" => check_shared_manager(case["body"].as_str().unwrap_or("a^"), &build_urls(), l),
         "regex" => check_full_regex(rule, us, l),
         "star" => check_star_relations(rule, us, l),
         _ => check_pattern_sfx(rule, case["suffix"].as_str().unwrap_or(""), us, l, true),
@@ -536,6 +591,13 @@ fn check(ctx: &Ctx) -> i32 {
             l.samples.push(json!({"rule": rule, "urls": urls.len(), "first_url": urls[0].req.url}));
         }
         check_pattern(&rule, &urls, l, true);
+    });
+    let shared_len: u32 = ctx.tier.pick(3, 4);
+    ctx.bound("shared_manager_body_max_len", shared_len);
+    let shared_bodies = count_strings_upto(SIGMA.len() as u64, shared_len) - 1;
+    ctx.par_range("anchor twins through one regex manager", shared_bodies, 4, |i, l| {
+        let body = nth_string(i + 1, &SIGMA);
+        check_shared_manager(&body, &urls, l);
     });
     let rel_bodies = count_strings_upto(SIGMA.len() as u64, rel_len) - 1;
     ctx.par_range("star-relations", rel_bodies * MODES.len() as u64, 64, |i, l| {
